@@ -234,6 +234,8 @@ RULES += engine.premise_rules("c01", ["filter", "probe", "check-mirror"])
 # a forced mate is found only if the search is the full-width search the property describes: no pruning beyond
 # alpha-beta / null-window re-search, the terminal scores, and a completed root search recording its result (C11 rules)
 RULES += engine.premise_rules("c11", ["exits", "root-result", "windows", "cut", "terminal"])
+# ... and the move found is announced only if the PV walk that runs before the announcement does not trip its own assertion
+RULES += engine.premise_rules("c14", ["pv-legal"])
 
 
 def run(tier):
